@@ -13,6 +13,7 @@ import (
 	"sync/atomic"
 
 	"github.com/ipfs/boxo/verifshim/eng"
+	blocks "github.com/ipfs/go-block-format"
 	cid "github.com/ipfs/go-cid"
 	mh "github.com/multiformats/go-multihash"
 )
@@ -28,6 +29,39 @@ type ctx struct {
 	r       *eng.Run
 	id      string
 	verbose bool
+	kept    []keptBlock
+}
+
+// keptBlock is a block a verified read handed out. "A result that was verified
+// when it was returned must stay what was returned": every returned block is
+// retained across all following operations of the case (further reads of the
+// same and of other references, rejected reads, Verify/VerifyAll passes) and
+// re-hashed at the very end of the case.
+type keptBlock struct {
+	via  string
+	blk  blocks.Block
+	c    cid.Cid
+	want []byte
+	feat []string
+}
+
+func (x *ctx) keep(via string, blk blocks.Block, c cid.Cid, want []byte, feat []string) {
+	if blk == nil {
+		return
+	}
+	x.kept = append(x.kept, keptBlock{via, blk, c, append([]byte{}, want...), append([]string{}, feat...)})
+}
+
+func (x *ctx) recheck() *eng.Violation {
+	for i, k := range x.kept {
+		got := k.blk.RawData()
+		if !bytes.Equal(got, k.want) || !hashesTo(k.c, got) {
+			return eng.V("returned-block-changed-later", k.via,
+				fmt.Sprintf("%s: block #%d returned by %s for %s held %q when it was returned and verified; after the following operations of the case the same block holds %q, which does not hash to its CID", x.id, i+1, k.via, k.c, k.want, got),
+				append(k.feat, "retained", "true")...)
+		}
+	}
+	return nil
 }
 
 func (x *ctx) outcome(class string) {
@@ -207,7 +241,11 @@ func scratch() string {
 func runCase(r *eng.Run, k kase, verbose bool) *eng.Violation {
 	x := &ctx{r: r, id: k.id, verbose: verbose}
 	var v *eng.Violation
-	if pv := eng.Guard("case", func() { v = k.run(x) }); pv != nil {
+	if pv := eng.Guard("case", func() {
+		if v = k.run(x); v == nil {
+			v = x.recheck()
+		}
+	}); pv != nil {
 		v = pv
 	}
 	r.Eval(1)
